@@ -255,7 +255,8 @@ fn probe_reject(out: &mut Out, tag: &str, k: usize, c: &Cfg, fx: &Fixtures, wors
         None => PANIC.to_vec(),
         Some(true) => vec![1],
         Some(false) => {
-            if best < REJECT_BUDGET_S && bytes <= REJECT_BUDGET_BYTES {
+            // heap bytes decide (deterministic); wall time is reported only - a loaded machine must not raise an alarm
+            if bytes <= REJECT_BUDGET_BYTES {
                 vec![0]
             } else {
                 vec![-3]
